@@ -94,9 +94,9 @@ fn c06_conversions_u8() {
     check_amount_to_usd::<u8, i32>(kani::any(), kani::any(), kani::any());
 }
 
-//@ prop=C06 tier=quick kind=hold
+//@ prop=C06 tier=experimental kind=hold
 //@ enc=utils::usd_to_market_token_amount, utils::market_token_amount_to_usd, MulDiv::checked_mul_div (narrow impl)
-//@ bound=T=u16: every usd value, pool value, supply, divisor (incl. zero) and market token amount
+//@ bound=T=u16: every usd value, pool value, supply, divisor (incl. zero) and market token amount -- does NOT finish within 900 s (16-bit division by a symbolic divisor), never selected
 #[kani::proof]
 fn c06_conversions_u16() {
     check_usd_to_amount::<u16, i64>(kani::any(), kani::any(), kani::any(), kani::any());
@@ -126,18 +126,405 @@ where
     kani::cover!(minted.w() > z && back.w() == v.w(), "exact round trip");
 }
 
-//@ prop=C06 tier=quick kind=hold
-//@ enc=utils::usd_to_market_token_amount, utils::market_token_amount_to_usd
-//@ bound=T=u8: every deposited value, pool value > 0, supply > 0 (the divisor is not used when supply > 0)
-#[kani::proof]
-fn c06_conversion_round_trip_u8() {
-    check_conversion_round_trip::<u8, i32>(kani::any(), kani::any(), kani::any());
+fn conversion_round_trip_bounded(limit: u8) {
+    let (v, p, s): (u8, u8, u8) = (kani::any(), kani::any(), kani::any());
+    kani::assume(v <= limit && p <= limit && s <= limit);
+    check_conversion_round_trip::<u8, i32>(v, p, s);
 }
 
 //@ prop=C06 tier=quick kind=hold
 //@ enc=utils::usd_to_market_token_amount, utils::market_token_amount_to_usd
-//@ bound=T=u16: every deposited value, pool value > 0, supply > 0 (the divisor is not used when supply > 0)
+//@ bound=T=u8 with deposited value, pool value (> 0) and supply (> 0) each <= 63 (the non-linear round-trip inequality is hard for the SAT solver: 6-bit values take ~1 min, 7-bit values are the thorough variant, full 8-bit values do not finish in 10 min)
 #[kani::proof]
-fn c06_conversion_round_trip_u16() {
-    check_conversion_round_trip::<u16, i64>(kani::any(), kani::any(), kani::any());
+fn c06_conversion_round_trip_6bit() {
+    conversion_round_trip_bounded(63);
+}
+
+//@ prop=C06 tier=thorough kind=hold
+//@ enc=utils::usd_to_market_token_amount, utils::market_token_amount_to_usd
+//@ bound=T=u8 with deposited value, pool value (> 0) and supply (> 0) each <= 127
+//@ timeout=3600
+#[kani::proof]
+fn c06_conversion_round_trip_7bit() {
+    conversion_round_trip_bounded(127);
+}
+
+// ------------------------------------------------------------------------------------------------
+// Component: pool_value composition (crates/model/src/market/liquidity.rs)
+// ------------------------------------------------------------------------------------------------
+
+/// Exact reference of `LiquidityMarketExt::pool_value` over mathematical integers for a market
+/// whose borrowing clock reads zero elapsed seconds (then the pending borrowing fee is
+/// `floor(open_interest * cumulative_factor / UNIT) - total_borrowing`, independent of the
+/// per-second factor). Returns `None` when some intermediate value leaves the range in which the
+/// reference is meaningful (the harness only compares on `Ok`).
+pub fn ref_pool_value<T, O, const D: u8>(
+    m: &VMarket<T, D>,
+    p: &Prices<T>,
+    kind_is_deposit: bool,
+    maximize: bool,
+) -> O
+where
+    O: Wide,
+    T: FixedPointOps<D> + CheckedSub + W<O = O> + Copy + PartialEq,
+    T::Signed: Num + UnsignedAbs<Unsigned = T> + TryFrom<T> + W<O = O> + Copy,
+{
+    let z = O::zero();
+    let unit = <T as FixedPointOps<D>>::UNIT.w();
+    let pick = |pr: &Price<T>, max: bool| if max { pr.max.w() } else { pr.min.w() };
+    let long_value = m.primary.long.w() * pick(&p.long_token_price, maximize);
+    let short_value = m.primary.short.w() * pick(&p.short_token_price, maximize);
+    let mut pv = long_value + short_value;
+
+    // pending borrowing fees, pool share
+    let oi = |long: bool| if long { m.oi_long.long.w() + m.oi_long.short.w() } else { m.oi_short.long.w() + m.oi_short.short.w() };
+    let oit = |long: bool| if long { m.oit_long.long.w() + m.oit_long.short.w() } else { m.oit_short.long.w() + m.oit_short.short.w() };
+    let pending = |long: bool| {
+        let cum = if long { m.borrowing_factor.long.w() } else { m.borrowing_factor.short.w() };
+        let tb = if long { m.total_borrowing.long.w() } else { m.total_borrowing.short.w() };
+        fdiv(oi(long) * cum, unit) - tb
+    };
+    let total_fees = pending(true) + pending(false);
+    pv = pv + fdiv(total_fees * (unit - m.b_receiver_factor.w()), unit);
+
+    // net pnl, each side capped by max_pnl_factor(kind, side) * side pool value
+    let pnl = |long: bool| -> O {
+        if oi(long) == z && oit(long) == z {
+            return z;
+        }
+        // pool value is maximised <=> pnl is minimised: long pnl uses the min index price, short the max
+        let pnl_max = !maximize;
+        let price = if long ^ pnl_max { p.index_token_price.min.w() } else { p.index_token_price.max.w() };
+        let value = oit(long) * price;
+        if long { value - oi(long) } else { oi(long) - value }
+    };
+    let cap = |long: bool, x: O| -> O {
+        if x > z {
+            let f = match (kind_is_deposit, long) {
+                (true, true) => m.pnl_deposit_long.w(),
+                (true, false) => m.pnl_deposit_short.w(),
+                (false, true) => m.pnl_withdrawal_long.w(),
+                (false, false) => m.pnl_withdrawal_short.w(),
+            };
+            let side_value = if long { long_value } else { short_value };
+            let max = fdiv(side_value * f, unit);
+            if x > max { max } else { x }
+        } else {
+            x
+        }
+    };
+    pv = pv - (cap(true, pnl(true)) + cap(false, pnl(false)));
+
+    // position impact pool (after the pending distribution), at the index price that minimises the pool value
+    let current = m.position_impact.long.w();
+    let min_amount = m.pi_min_pool_amount.w();
+    let next = if m.pi_distribute_factor.w() == z || current <= min_amount {
+        current
+    } else {
+        // the duration is converted into the number type first (fails above its maximum)
+        let dur = if m.passed_pi_distribution > 255 { 255i32 } else { m.passed_pi_distribution as i32 };
+        let mut dist = fdiv(O::lit(dur) * m.pi_distribute_factor.w(), unit);
+        if dist > current - min_amount {
+            dist = current - min_amount;
+        }
+        current - dist
+    };
+    pv = pv - next * pick(&p.index_token_price, !maximize);
+    pv
+}
+
+fn pool_value_market_u8() -> VMarket<u8, 1> {
+    let mut m: VMarket<u8, 1> = sym::market_all();
+    m.passed_borrowing = 0;
+    kani::assume(m.passed_pi_distribution <= 255);
+    // borrowing factor exponents: whole units only (0 or 1.0), no power loop
+    kani::assume(m.b_exponent_long == 0 || m.b_exponent_long == 10);
+    kani::assume(m.b_exponent_short == 0 || m.b_exponent_short == 10);
+    m
+}
+
+pub fn check_pool_value_u8(m: &VMarket<u8, 1>, p: &Prices<u8>, kind_is_deposit: bool, maximize: bool) -> Option<i8> {
+    let kind = if kind_is_deposit { PnlFactorKind::MaxAfterDeposit } else { PnlFactorKind::MaxAfterWithdrawal };
+    match m.pool_value(p, kind, maximize) {
+        Ok(v) => {
+            let want: i32 = ref_pool_value::<u8, i32, 1>(m, p, kind_is_deposit, maximize);
+            assert!(v as i32 == want, "C06: pool_value differs from liquidity value + pending borrowing fees (pool share) - capped net pnl - impact pool value");
+            Some(v)
+        }
+        Err(e) => {
+            std::mem::forget(e);
+            None
+        }
+    }
+}
+
+//@ prop=C06 tier=thorough kind=hold
+//@ enc=LiquidityMarketExt::pool_value, BaseMarketExt::pool_value_without_pnl_for_one_side, BaseMarketExt::pnl, MarketUtils::cap_pnl, BorrowingFeeMarketExt::total_pending_borrowing_fees, BorrowingFeeMarketExt::next_cumulative_borrowing_factor, BorrowingFeeMarketExt::borrowing_factor_per_second, PositionImpactMarketExt::pending_position_impact_pool_distribution_amount, utils::apply_factor, Price::pick_price, Price::pick_price_for_pnl
+//@ bound=T=u8 DECIMALS=1 (UNIT 10): every pool, open interest, cumulative borrowing factor, total borrowing, impact pool, pnl factor, receiver factor, distribution parameter and clock (<= 255 s), all six prices, both pnl-factor kinds, maximize on/off; borrowing clock reads 0 s elapsed; borrowing exponents in {0, 1.0}
+//@ timeout=3600 mem=20
+#[kani::proof]
+#[kani::unwind(1)]
+fn c06_pool_value_composition_u8() {
+    let m = pool_value_market_u8();
+    let p = prices(sym::price_u8(), sym::price_u8(), sym::price_u8());
+    let maximize: bool = kani::any();
+    let r = check_pool_value_u8(&m, &p, kani::any(), maximize);
+    kani::cover!(matches!(r, Some(v) if v > 0), "positive pool value");
+    kani::cover!(matches!(r, Some(v) if v < 0), "negative pool value");
+    kani::cover!(r.is_some() && m.oit_long.long > 0 && m.oi_long.long < m.oit_long.long, "long pnl present");
+    kani::cover!(r.is_some() && m.position_impact.long > 0 && m.pi_distribute_factor > 0 && m.passed_pi_distribution > 0, "impact pool with pending distribution");
+    kani::cover!(r.is_some() && m.total_borrowing.long == 0 && m.borrowing_factor.long > 0 && m.oi_long.long >= 10, "pending borrowing fee");
+}
+
+// Quick-tier slices of the same comparison: one group of terms symbolic at a time (a concrete
+// field lets the symbolic execution skip part of the callee tree; the all-symbolic harness above
+// is the thorough variant).
+
+//@ prop=C06 tier=quick kind=hold
+//@ enc=LiquidityMarketExt::pool_value, BaseMarketExt::pool_value_without_pnl_for_one_side, PositionImpactMarketExt::pending_position_impact_pool_distribution_amount, Price::pick_price
+//@ bound=T=u8 DECIMALS=1: liquidity pool, position impact pool, distribution factor / minimum / clock (<= 255 s), all six prices, both pnl-factor kinds, maximize on/off symbolic; no open interest, no borrowing state
+#[kani::proof]
+#[kani::unwind(1)]
+fn c06_pool_value_liquidity_and_impact_u8() {
+    let mut m = base_market_u8();
+    m.primary = sym::pool();
+    m.position_impact = sym::pool();
+    m.pi_distribute_factor = kani::any();
+    m.pi_min_pool_amount = kani::any();
+    m.passed_pi_distribution = kani::any();
+    kani::assume(m.passed_pi_distribution <= 255);
+    let p = prices(sym::price_u8(), sym::price_u8(), sym::price_u8());
+    let maximize: bool = kani::any();
+    let r = check_pool_value_u8(&m, &p, kani::any(), maximize);
+    kani::cover!(matches!(r, Some(v) if v > 0) && maximize && p.long_token_price.min < p.long_token_price.max && m.primary.long > 0, "maximised with a price spread");
+    kani::cover!(matches!(r, Some(v) if v < 0), "negative pool value (impact pool worth more than the liquidity)");
+    kani::cover!(r.is_some() && m.position_impact.long > m.pi_min_pool_amount && m.pi_distribute_factor > 0 && m.passed_pi_distribution > 10, "impact pool with pending distribution");
+}
+
+//@ prop=C06 tier=quick kind=hold
+//@ enc=LiquidityMarketExt::pool_value, BaseMarketExt::pnl, BaseMarketExt::open_interest, BaseMarketExt::open_interest_in_tokens, MarketUtils::cap_pnl, BaseMarket::pnl_factor_config (VMarket), Price::pick_price_for_pnl, utils::apply_factor
+//@ bound=T=u8 DECIMALS=1: liquidity pool, all four open-interest pools (usd and tokens, long and short), the four deposit/withdrawal max-pnl factors, all six prices, both pnl-factor kinds, maximize on/off symbolic; cumulative borrowing factor and total borrowing zero, impact pool empty
+#[kani::proof]
+#[kani::unwind(1)]
+fn c06_pool_value_capped_pnl_u8() {
+    let mut m = base_market_u8();
+    m.primary = sym::pool();
+    m.oi_long = sym::pool();
+    m.oi_short = sym::pool();
+    m.oit_long = sym::pool();
+    m.oit_short = sym::pool();
+    m.pnl_deposit_long = kani::any();
+    m.pnl_deposit_short = kani::any();
+    m.pnl_withdrawal_long = kani::any();
+    m.pnl_withdrawal_short = kani::any();
+    let p = prices(sym::price_u8(), sym::price_u8(), sym::price_u8());
+    let kind_is_deposit: bool = kani::any();
+    let r = check_pool_value_u8(&m, &p, kind_is_deposit, kani::any());
+    kani::cover!(r.is_some() && m.oit_long.long as u16 * p.index_token_price.min as u16 > m.oi_long.long as u16 + m.oi_long.short as u16 && m.pnl_deposit_long < 10 && kind_is_deposit, "positive long pnl, deposit factor below 100 %");
+    kani::cover!(r.is_some() && (m.oi_short.long as u16 + m.oi_short.short as u16) > (m.oit_short.long as u16 + m.oit_short.short as u16) * p.index_token_price.max as u16 && !kind_is_deposit, "positive short pnl, withdrawal kind");
+    kani::cover!(matches!(r, Some(v) if v < 0), "negative pool value");
+}
+
+//@ prop=C06 tier=quick kind=hold
+//@ enc=LiquidityMarketExt::pool_value, BorrowingFeeMarketExt::total_pending_borrowing_fees, BorrowingFeeMarketExt::next_cumulative_borrowing_factor, BorrowingFeeMarketExt::borrowing_factor_per_second, BorrowingFeeParams::receiver_factor, utils::apply_factor
+//@ bound=T=u8 DECIMALS=1: liquidity pool, open interest (usd) pools, cumulative borrowing factors, total borrowing, borrowing receiver factor, long/short token prices, maximize on/off symbolic; borrowing clock reads 0 s; no open interest in tokens (pnl = -open interest for longs, +open interest for shorts, capped), impact pool empty, kink model off
+#[kani::proof]
+#[kani::unwind(1)]
+fn c06_pool_value_borrowing_fees_u8() {
+    let mut m = base_market_u8();
+    m.primary = sym::pool();
+    m.oi_long = sym::pool();
+    m.oi_short = sym::pool();
+    m.borrowing_factor = sym::pool();
+    m.total_borrowing = sym::pool();
+    m.b_receiver_factor = kani::any();
+    let p = prices((1, 1), sym::price_u8(), sym::price_u8());
+    let r = check_pool_value_u8(&m, &p, true, kani::any());
+    kani::cover!(r.is_some() && m.total_borrowing.long < m.oi_long.long && m.borrowing_factor.long >= 10 && m.oi_long.long > 0 && m.b_receiver_factor > 0 && m.b_receiver_factor < 10, "pending borrowing fee split between pool and receiver");
+    kani::cover!(r.is_none() && m.b_receiver_factor > 10, "receiver factor above 100 % rejected");
+}
+
+// ------------------------------------------------------------------------------------------------
+// Whole actions: Deposit::execute / Withdrawal::execute
+// ------------------------------------------------------------------------------------------------
+
+pub struct DepositOut {
+    pub minted: u8,
+    pub fee_long: (u8, u8),  // (receiver, pool)
+    pub fee_short: (u8, u8), // (receiver, pool)
+    pub impact: i8,
+}
+
+/// Runs the real `Deposit::try_new(..)?.execute()`.
+pub fn run_deposit_u8(m: &mut VMarket<u8, 1>, long: u8, short: u8, p: Prices<u8>) -> Option<DepositOut> {
+    let res = match m.deposit(long, short, p) {
+        Ok(d) => d.execute(),
+        Err(e) => Err(e),
+    };
+    match res {
+        Ok(r) => Some(DepositOut {
+            minted: *r.minted(),
+            fee_long: (*r.long_token_fees().fee_amount_for_receiver(), *r.long_token_fees().fee_amount_for_pool()),
+            fee_short: (*r.short_token_fees().fee_amount_for_receiver(), *r.short_token_fees().fee_amount_for_pool()),
+            impact: *r.price_impact(),
+        }),
+        Err(e) => {
+            std::mem::forget(e);
+            None
+        }
+    }
+}
+
+pub struct WithdrawOut {
+    pub long_out: u8,
+    pub short_out: u8,
+    pub fee_long: (u8, u8),
+    pub fee_short: (u8, u8),
+}
+
+/// Runs the real `Withdrawal::try_new(..)?.execute()`.
+pub fn run_withdraw_u8(m: &mut VMarket<u8, 1>, amount: u8, p: Prices<u8>) -> Option<WithdrawOut> {
+    let res = match m.withdraw(amount, p) {
+        Ok(w) => w.execute(),
+        Err(e) => Err(e),
+    };
+    match res {
+        Ok(r) => Some(WithdrawOut {
+            long_out: *r.long_token_output(),
+            short_out: *r.short_token_output(),
+            fee_long: (*r.long_token_fees().fee_amount_for_receiver(), *r.long_token_fees().fee_amount_for_pool()),
+            fee_short: (*r.short_token_fees().fee_amount_for_receiver(), *r.short_token_fees().fee_amount_for_pool()),
+        }),
+        Err(e) => {
+            std::mem::forget(e);
+            None
+        }
+    }
+}
+
+/// Benign limits / parameters for an empty market: nothing symbolic.
+pub fn base_market_u8() -> VMarket<u8, 1> {
+    let mut m: VMarket<u8, 1> = VMarket::default();
+    m.usd_to_amount_divisor = 1;
+    m.swap_impact_exponent = 10;
+    m.max_pool_amount_long = 255;
+    m.max_pool_amount_short = 255;
+    m.max_pool_value_for_deposit_long = 255;
+    m.max_pool_value_for_deposit_short = 255;
+    m.pnl_deposit_long = 10;
+    m.pnl_deposit_short = 10;
+    m.pnl_withdrawal_long = 10;
+    m.pnl_withdrawal_short = 10;
+    m.pnl_trader = 10;
+    m.pnl_adl = 10;
+    m.reserve_factor = 10;
+    m.oi_reserve_factor = 10;
+    m.max_oi_long = 255;
+    m.max_oi_short = 255;
+    m.pi_exponent = 10;
+    m.b_exponent_long = 10;
+    m.b_exponent_short = 10;
+    m
+}
+
+//@ prop=C06 tier=thorough kind=hold
+//@ enc=Deposit::try_new, Deposit::execute, Deposit::price_impact, Deposit::execute_deposit, Deposit::charge_fees, LiquidityMarketExt::pool_value, LiquidityMarketExt::validate_pool_value_for_deposit, BaseMarketExt::validate_max_pnl, BaseMarketExt::validate_pool_amount, BaseMarketMutExt::apply_delta, SwapMarketExt::swap_impact_value, utils::usd_to_market_token_amount, FeeParams::apply_fees, LiquidityMarketMut::mint (VMarket)
+//@ bound=T=u8 DECIMALS=1 (UNIT 10): first deposit into an EMPTY market (every pool zero, supply zero): both deposit amounts, all six prices (0<min<=max, min+max<=255), the usd-to-amount divisor, every swap fee / receiver / discount factor, the pool amount and pool value limits symbolic; swap impact factors zero
+//@ timeout=5400 mem=36
+#[kani::proof]
+#[kani::unwind(1)]
+fn c06_first_deposit_whole_u8() {
+    let mut m = base_market_u8();
+    m.usd_to_amount_divisor = kani::any();
+    m.swap_fee_positive = kani::any();
+    m.swap_fee_negative = kani::any();
+    m.swap_fee_receiver = kani::any();
+    m.swap_fee_has_discount = kani::any();
+    m.swap_fee_discount = kani::any();
+    m.max_pool_amount_long = kani::any();
+    m.max_pool_amount_short = kani::any();
+    m.max_pool_value_for_deposit_long = kani::any();
+    m.max_pool_value_for_deposit_short = kani::any();
+    let pre = m;
+    let (long, short): (u8, u8) = (kani::any(), kani::any());
+    let p = prices(sym::price_u8(), sym::price_u8(), sym::price_u8());
+    let Some(d) = run_deposit_u8(&mut m, long, short, p) else { return };
+    let div = pre.usd_to_amount_divisor as i32;
+    assert!(div != 0, "C06: deposit succeeded with a zero divisor");
+    // amounts that reach the pool per side
+    let net_long = long as i32 - d.fee_long.0 as i32 - d.fee_long.1 as i32;
+    let net_short = short as i32 - d.fee_short.0 as i32 - d.fee_short.1 as i32;
+    assert!(net_long >= 0 && net_short >= 0);
+    assert!(d.impact == 0, "C06: zero impact factors but non-zero impact");
+    // one market token per `divisor` of USD value at the minimum price, per deposited side, rounded down
+    let want = (net_long * p.long_token_price.min as i32) / div + (net_short * p.short_token_price.min as i32) / div;
+    assert!(d.minted as i32 == want, "C06: first deposit into an empty pool is not priced at one USD (divisor) per market token");
+    assert!(m.total_supply == d.minted, "C06: supply after the first deposit != minted");
+    // token bookkeeping of the deposit leg
+    assert!(m.primary.long as i32 == long as i32 - d.fee_long.0 as i32 && m.primary.short as i32 == short as i32 - d.fee_short.0 as i32, "C06: liquidity pool after first deposit");
+    assert!(m.fee.long == d.fee_long.0 && m.fee.short == d.fee_short.0, "C06: claimable fees after first deposit");
+    assert!(m.swap_impact.same(&pre.swap_impact) & m.same_other_pools(&{ let mut x = pre; x.total_supply = m.total_supply; x }) & m.same_params(&pre), "C06: first deposit touched an unrelated pool or parameter");
+    kani::cover!(d.minted > 1 && long > 0 && short > 0, "two-sided first deposit");
+    kani::cover!(d.minted > 0 && d.fee_long.0 > 0, "first deposit with fees");
+    kani::cover!(d.minted > 0 && div > 1, "first deposit with divisor above one");
+}
+
+/// Deposit, then immediately withdraw all minted market tokens at the same prices.
+/// Returns `(deposited value at min prices, withdrawn value at max prices, funded positive impact value)`.
+pub fn round_trip_u8(m: &mut VMarket<u8, 1>, long: u8, short: u8, p: Prices<u8>) -> Option<(i32, i32, i32)> {
+    let m0 = *m;
+    let d = run_deposit_u8(m, long, short, p)?;
+    let m1 = *m;
+    if d.minted == 0 {
+        return None;
+    }
+    let w = run_withdraw_u8(m, d.minted, p)?;
+    let v_in = long as i32 * p.long_token_price.min as i32 + short as i32 * p.short_token_price.min as i32;
+    let v_out = w.long_out as i32 * p.long_token_price.max as i32 + w.short_out as i32 * p.short_token_price.max as i32;
+    // positive impact paid to the depositor out of the swap impact pool, at the price the code uses
+    let dl = m0.swap_impact.long as i32 - m1.swap_impact.long as i32;
+    let ds = m0.swap_impact.short as i32 - m1.swap_impact.short as i32;
+    let funded = (if dl > 0 { dl } else { 0 }) * p.long_token_price.max as i32 + (if ds > 0 { ds } else { 0 }) * p.short_token_price.max as i32;
+
+    // token bookkeeping of both legs (exact): what left the market is what the reports say
+    assert!(m.total_supply == m0.total_supply, "C06: supply after the round trip differs from the supply before");
+    let hold = |x: &VMarket<u8, 1>, long_side: bool| -> i32 {
+        if long_side {
+            x.primary.long as i32 + x.swap_impact.long as i32 + x.fee.long as i32
+        } else {
+            x.primary.short as i32 + x.swap_impact.short as i32 + x.fee.short as i32
+        }
+    };
+    assert!(hold(&m1, true) == hold(&m0, true) + long as i32 && hold(&m1, false) == hold(&m0, false) + short as i32, "C06: deposit leg: holdings did not grow by exactly the deposited amounts");
+    assert!(hold(m, true) + w.long_out as i32 == hold(&m1, true) && hold(m, false) + w.short_out as i32 == hold(&m1, false), "C06: withdraw leg: holdings did not shrink by exactly the paid amounts");
+    Some((v_in, v_out, funded))
+}
+
+//@ prop=C06 tier=thorough kind=hold
+//@ enc=Deposit::execute, Withdrawal::execute, Withdrawal::output_amounts, LiquidityMarketExt::pool_value, utils::usd_to_market_token_amount, utils::market_token_amount_to_usd, FeeParams::apply_fees, SwapMarketExt::swap_impact_value, SwapMarketMutExt::apply_swap_impact_value_with_cap, BaseMarketMutExt::apply_delta, BaseMarketExt::validate_reserve, BaseMarketExt::validate_max_pnl, LiquidityMarketMut::{mint, burn} (VMarket)
+//@ bound=T=u8 DECIMALS=1 (UNIT 10): liquidity pool, swap impact pool, claimable fee pool, supply (supply > 0 or liquidity empty), both deposit amounts, all six prices, swap fee / receiver factors, swap impact factors (exponent 1.0) symbolic; no open interest, clocks read 0 s, limits at their maximum
+//@ timeout=5400 mem=40
+#[kani::proof]
+#[kani::unwind(1)]
+fn c06_round_trip_whole_u8() {
+    let mut m = base_market_u8();
+    m.primary = sym::pool();
+    m.swap_impact = sym::pool();
+    m.fee = sym::pool();
+    m.total_supply = kani::any();
+    m.swap_fee_positive = kani::any();
+    m.swap_fee_negative = kani::any();
+    m.swap_fee_receiver = kani::any();
+    m.swap_impact_positive = kani::any();
+    m.swap_impact_negative = kani::any();
+    // by design the first depositor into a market without supply owns whatever is in the pool
+    kani::assume(m.total_supply > 0 || (m.primary.long == 0 && m.primary.short == 0));
+    let p = prices(sym::price_u8(), sym::price_u8(), sym::price_u8());
+    let r = round_trip_u8(&mut m, kani::any(), kani::any(), p);
+    if let Some((v_in, v_out, funded)) = r {
+        assert!(v_out <= v_in + funded, "C06: deposit then withdraw-all returns more USD value (at max prices) than was deposited (at min prices) plus the positive impact funded by the impact pool");
+        kani::cover!(v_out > 0 && v_out < v_in, "lossy round trip");
+        kani::cover!(funded > 0, "round trip with funded positive impact");
+    }
+    kani::cover!(r.is_some(), "round trip completed");
 }
